@@ -404,7 +404,8 @@ func (w *qWorld) applyVoids() {
 			// ready, or if the message was certainly in flight at that moment.
 			certain := true
 			for _, co := range w.cons {
-				if co.ck == c.Key && co.Subscribed && (!co.Dead || co.DeadStep >= c.VoidStep) && (co.Rdy > 0 || co.rdyStepMax > 0) && !c.Paused {
+				// (a pause that was sent in the same step as the empty may have taken effect after a pump took the message)
+				if co.ck == c.Key && co.Subscribed && (!co.Dead || co.DeadStep >= c.VoidStep) && (co.Rdy > 0 || co.rdyStepMax > 0) && !(c.Paused && c.PausedStep < c.VoidStep) {
 					certain = false
 				}
 			}
